@@ -426,7 +426,16 @@ def unflat(ti, nums):
     if ti.shape == "prim":
         return nums[0]
     if ti.shape in ("vec", "color", "quat", "mat"):
-        return cls(*nums)
+        try:
+            return cls(*nums)
+        except OverflowError:
+            if ti.shape != "vec":
+                raise
+            # the V2 constructors range-check their arguments (numeric_cast: inf is refused); the attribute setters do not
+            o = cls(*([0] * ti.n))
+            for nm, v in zip("xyzw", nums):
+                setattr(o, nm, v)
+            return o
     if ti.shape == "euler":
         return cls(nums[0], nums[1], nums[2])
     if ti.shape == "box":
@@ -658,10 +667,15 @@ def role_for(e, pos, ti):
     return "any"
 
 
-STRIDED_PRIM = {"f32": [("V3fArray", "V3f", "xyz"), ("QuatfArray", "Quatf", ("r", "x", "y", "z")), ("C4fArray", "Color4f", "rgba")],
-                "f64": [("V3dArray", "V3d", "xyz"), ("QuatdArray", "Quatd", ("r", "x", "y", "z"))],
-                "i32": [("V3iArray", "V3i", "xyz"), ("V2iArray", "V2i", "xy")], "i16": [("V3sArray", "V3s", "xyz")],
+# every component `add_property` of the array classes that yields a FixedArray python can hold (V*i64Array.x etc. raise: no
+# Int64Array class, open finding) is a carrier: (array class, element class, component property names)
+STRIDED_PRIM = {"f32": [("V3fArray", "V3f", "xyz"), ("QuatfArray", "Quatf", ("r", "x", "y", "z")), ("C4fArray", "Color4f", "rgba"),
+                        ("V2fArray", "V2f", "xy"), ("V4fArray", "V4f", "xyzw"), ("C3fArray", "Color3f", "rgb")],
+                "f64": [("V3dArray", "V3d", "xyz"), ("QuatdArray", "Quatd", ("r", "x", "y", "z")), ("V2dArray", "V2d", "xy"), ("V4dArray", "V4d", "xyzw")],
+                "i32": [("V3iArray", "V3i", "xyz"), ("V2iArray", "V2i", "xy"), ("V4iArray", "V4i", "xyzw")],
+                "i16": [("V3sArray", "V3s", "xyz"), ("V2sArray", "V2s", "xy"), ("V4sArray", "V4s", "xyzw")],
                 "u8": [("C4cArray", "Color4c", "rgba"), ("C3cArray", "Color3c", "rgb")]}
+STRIDED_USED = set()      # component properties used as strided sources in this process
 BOX_SFX = {"f32": "f", "f64": "d", "i32": "i", "i16": "s", "i64": "i64"}
 
 
@@ -760,6 +774,7 @@ def make_spec(e, pos, kind, ti, lv, mode, L, rng, ds):
         cands = strided_sources(ti)
         a, b_, comps = cands[rng.randrange(len(cands))]
         src = (a, b_, comps, rng.randrange(len(comps)))
+        STRIDED_USED.add("%s.%s" % (a.__name__, comps[src[3]]))
     if mode in ("direct", "full-direct", "strided"):
         sp = ArgSpec(kind, ti, lv, mode, values(L))
         sp.src = src
@@ -1075,6 +1090,25 @@ SCALAR_NAME = {
 
 def scalar_name(e):
     return SCALAR_NAME.get((e.owner, e.name), e.name)
+
+
+PRIM_LETTER = {"f32": "f", "f64": "d", "i16": "s", "i32": "i", "i64": "l", "u8": "c"}
+
+
+def ref_key(sargs, spelling, module=False):
+    """the scalar reference just used, in the key format of the scalar-vs-C++ table (c20_scalar_ref list):
+    Class.method(Class,ArgType,...) / imath.fn(d,i,...)"""
+    def tn(x, letter):
+        if isinstance(x, bool):
+            return "b"
+        if isinstance(x, (int, float)):
+            return letter if not module else ("d" if isinstance(x, float) else "i")
+        return type(x).__name__
+    if module:
+        return "imath.%s(%s)" % (spelling, ",".join(tn(a, None) for a in sargs))
+    c = classify_obj(sargs[0])
+    letter = PRIM_LETTER.get(c[1].base, "?") if c else "?"
+    return "%s.%s(%s)" % (type(sargs[0]).__name__, spelling, ",".join(tn(a, letter) for a in sargs))
 
 
 class NoRef(Exception):
@@ -1534,9 +1568,38 @@ class Exerciser:
             except SkipElement:
                 continue
             except Exception as ex:
-                nraise += 1                  # the scalar raises for this element (the array call did not)
-                summ.setdefault("scalar_raise_example", "%s: %s" % (type(ex).__name__, str(ex)[:80]))
-                continue
+                # the scalar binding raises for this element and the array call did not (the bindings raise on a zero float
+                # divisor and on singular matrices, the vectorised loops do not): compare with the C++ library's NON-throwing
+                # result instead of dropping the element
+                try:
+                    r = self.nonthrowing_reference(e, specs, sargs, tti, ex)
+                except Exception:
+                    r = None
+                if r is None:
+                    nraise += 1
+                    summ.setdefault("scalar_raise_example", "%s: %s" % (type(ex).__name__, str(ex)[:80]))
+                    continue
+                summ["scalar_raise_resolved"] = summ.get("scalar_raise_resolved", 0) + 1
+                spelling = None
+            if how == "ctor" and spelling == "__init__" and len(summ.setdefault("refs_used", [])) < 12:
+                try:
+                    letter = PRIM_LETTER.get(tti.base, "?")
+                    rk = "%s.__init__(%s)" % (tti.pycls().__name__, ",".join(
+                        ("b" if isinstance(a, bool) else "Order" if type(a).__name__ == "Order" else letter if isinstance(a, (int, float))
+                         else type(a).__name__) for a in sargs))
+                    if rk not in summ["refs_used"]:
+                        summ["refs_used"].append(rk)
+                except Exception:
+                    pass
+            if how in ("element-method", "scalar-self", "module") and e.name != "ifelse" and len(summ.setdefault("refs_used", [])) < 12:
+                try:
+                    sp_ = (spelling or (e.name if how != "element-method" else scalar_name(e))).split(" (")[0]
+                    if "(" not in sp_ and " " not in sp_ and "." not in sp_:
+                        rk = ref_key(getattr(self, "_ref_args", sargs), sp_, module=(how == "module"))
+                        if rk not in summ["refs_used"]:
+                            summ["refs_used"].append(rk)
+                except Exception:
+                    pass
             if spelling and spelling != e.name:
                 summ["scalar_ref"] = "%s (scalar spelling %s)" % (how, spelling)
             got = target[i]
@@ -1638,8 +1701,32 @@ class Exerciser:
                           "scalar_result_exact": [x.hex() if isinstance(x, float) else x for x in (flat(tti, r) if tti.shape != "prim" else [round_to(tti, r)])],
                           "array_element_exact": [x.hex() if isinstance(x, float) else x for x in (flat(tti, got) if tti.shape != "prim" else [got])]})
 
+    def nonthrowing_reference(self, e, specs, sargs, tti, ex):
+        """reference for an element on which the scalar BINDING raises by design:
+        * float vector / 0: the bindings raise RuntimeError('Division by zero'); Vec::operator/ divides component by
+          component in IEEE arithmetic (inf / nan);
+        * inverse / invert / gjInverse / gjInvert of a singular matrix: the bindings' default is singExc = true; the C++ default
+          (and the vectorised loop) is singExc = false, reachable as inverse(False)."""
+        msg = str(ex)
+        if "Division by zero" in msg and re.match(r"^__(i|r)?(true)?div__$", e.name) and len(sargs) == 2 and tti.isfloat \
+                and tti.shape in ("vec", "color"):
+            a, b = sargs
+            if e.name.startswith("__r"):
+                a, b = b, a
+            ta, tb = (specs[1].ti, specs[0].ti) if e.name.startswith("__r") else (specs[0].ti, specs[1].ti)
+            fa = flat(ta, a) if ta.shape != "prim" else [a] * tti.n
+            fb = flat(tb, b) if tb.shape != "prim" else [b] * tti.n
+            rnd = f32 if tti.base == "f32" else (lambda x: x)
+            return unflat(tti, [rnd(fdiv(x, y)) for x, y in zip(fa, fb)])
+        if "singular" in msg.lower() and e.name in ("inverse", "invert", "gjInverse", "gjInvert") and tti.shape == "mat":
+            m = copy_elem(specs[0].ti, sargs[0])
+            r = getattr(m, e.name)(False)
+            return m if (r is None or not isinstance(r, type(m))) else r
+        return None
+
     def scalar_one(self, e, how, fn, specs, sargs, tti, ret_is_self):
         """the scalar binding for one element -> (result, spelling used).  NoRef: no scalar reference exists."""
+        self._ref_args = sargs
         if how == "module":
             return fn(*sargs), None
         if how == "ctor":
@@ -1661,7 +1748,7 @@ class Exerciser:
                 return unflat(tti, comps), None
             if tti.shape == "prim":
                 raise NoRef("constructor of a primitive array from %d arguments" % len(sargs))
-            return tti.pycls()(*sargs), None
+            return tti.pycls()(*sargs), "__init__"
         if e.name == "ifelse" and len(sargs) == 3:
             return (sargs[0] if sargs[1] else sargs[2]), None       # choice[i] ? self[i] : other[i]
         if how == "builtin":
@@ -1727,6 +1814,7 @@ class Exerciser:
                 continue
             if r is None or (ret_is_self and not isinstance(r, type(a[0]))):
                 r = a[0]
+            self._ref_args = a
             return r, cand
         raise NoRef("element type has no usable scalar method (%s)" % "; ".join(tried))
 
@@ -1976,6 +2064,12 @@ def cmd_list():
     eps, nonvec, total = enumerate_entry_points()
     out = {"overloads_total": total, "non_vectorised": nonvec, "vectorised": len(eps), "arraylike_keys": ARRAYLIKE,
            "cxx2py": CXX2PY,
+           "strided_carriers": sorted("%s.%s" % (an, c) for lst_ in STRIDED_PRIM.values() for an, en, comps in lst_ if hasattr(imath, an) for c in comps) +
+                               sorted("Box%d%sArray.%s" % (d, sfx, c) for d in (2, 3) for sfx in BOX_SFX.values() for c in ("min", "max")
+                                      if hasattr(imath, "Box%d%sArray" % (d, sfx))) +
+                               ["Color4fArray2D." + c for c in "rgba"],
+           "component_properties": sorted("%s.%s" % (cn, n) for cn in dir(imath) if isinstance(getattr(imath, cn), type) and "Array" in cn
+                                          for n, v in getattr(imath, cn).__dict__.items() if isinstance(v, property) and n != "size"),
            "entries": [{"key": e.key, "sig": e.sig, "skip": e.skip, "core": is_core(e), "always": is_always(e),
                         "owner": e.owner, "name": e.name, "k": e.k, "cret": e.cret, "cargs": e.cargs,
                         "n_arrays": sum(1 for k, _, _ in e.args if k == "array")} for e in eps]}
@@ -2033,7 +2127,7 @@ def cmd_run(optpath, outpath):
             prog.write("END %s\n" % e.key)
             prog.flush()
     SHIM.clear()
-    out.put({"t": "stats", "done": done, "nan_bits_only_differences": ex.nan_only_count, "dispatches": SHIM.total_dispatches, "ranges": SHIM.total_ranges,
+    out.put({"t": "stats", "done": done, "strided_sources": sorted(STRIDED_USED), "nan_bits_only_differences": ex.nan_only_count, "dispatches": SHIM.total_dispatches, "ranges": SHIM.total_ranges,
              "fallbacks": SHIM.total_fallbacks, "thread_exceptions": SHIM.total_thread_exc, "wall": round(time.time() - t0, 2)})
 
 
@@ -2368,6 +2462,17 @@ def cmd_drd(optpath):
         if not e.skip:
             byk[e.key] = e
     n = 0
+    # positive control first: a deliberately racy Task of the shim, dispatched on 8 threads; the detector must report it
+    try:
+        SHIM.lib.shim_racy_control.argtypes = [ctypes.c_size_t]
+        SHIM.lib.shim_racy_control.restype = ctypes.c_long
+        SHIM.script([(i * 32, min(257, (i + 1) * 32 + (1 if i == 7 else 0))) for i in range(8)], True)
+        SHIM.lib.shim_racy_control(257)
+        st = SHIM.take()
+        SHIM.clear()
+        print("DRD-CONTROL dispatches=%d" % st["dispatches"], file=sys.stderr, flush=True)
+    except Exception as ex:
+        print("DRD-CONTROL error=%s" % ex, file=sys.stderr, flush=True)
     for k in o["keys"]:
         e = byk.get(k)
         if e is None:
